@@ -646,7 +646,7 @@ func vsShow(x [][]byte, ch string) string {
 	parts := make([]string, len(x))
 	for i, b := range x {
 		if ch == "V" {
-			parts[i] = string(b)
+			parts[i] = strconv.Quote(string(b))
 		} else {
 			parts[i] = fmt.Sprintf("%x", b)
 		}
